@@ -142,6 +142,15 @@ pub fn parse_rendered(src: &str) -> Result<Vec<RStruct>, String> {
     Ok(out)
 }
 
+/// read a rendering: the fast line grammar first, the real Rust grammar (syn) when the text is
+/// laid out differently. Only a text that neither can read is unreadable
+pub fn read_structs(src: &str) -> Result<Vec<RStruct>, String> {
+    match parse_rendered(src) {
+        Ok(s) => Ok(s),
+        Err(e) => syn_view(src).map_err(|e2| format!("{}; {}", e, e2)),
+    }
+}
+
 /// the struct tree of a rendering: for every struct its index and, per field of struct type, the subtree
 #[derive(Clone, Debug)]
 pub struct RTree {
